@@ -2275,6 +2275,15 @@ func (m *SnapManager) doLinkSnap(t *state.Task, _ *tomb.Tomb) (err error) {
 
 	// Restore configuration of the target revision (if available) on revert
 	if isInstalled {
+		rawCfg, err := config.GetSnapConfig(st, snapsup.InstanceName())
+		if err != nil {
+			return err
+		}
+		if rawCfg == nil {
+			// there is nothing to make a copy of; remember that, so
+			// that undo removes what this change might write
+			t.Set("old-config-absent", true)
+		}
 		// Make a copy of configuration of current snap revision
 		if err = config.SaveRevisionConfig(st, snapsup.InstanceName(), oldCurrent); err != nil {
 			return err
@@ -2833,7 +2842,18 @@ func (m *SnapManager) undoLinkSnap(t *state.Task, _ *tomb.Tomb) error {
 	// similarly, we need to re-save the disabled services if there is a
 	// revision for us to go back to, see comment below for full explanation
 	if len(snapst.Sequence.Revisions) > 0 {
-		if err = config.RestoreRevisionConfig(st, snapsup.InstanceName(), oldCurrent); err != nil {
+		var oldConfigAbsent bool
+		if err := t.Get("old-config-absent", &oldConfigAbsent); err != nil && !errors.Is(err, state.ErrNoState) {
+			return err
+		}
+		if oldConfigAbsent {
+			// the snap had no configuration, there is no copy to
+			// restore: drop what the failed change wrote
+			err = config.DeleteSnapConfig(st, snapsup.InstanceName())
+		} else {
+			err = config.RestoreRevisionConfig(st, snapsup.InstanceName(), oldCurrent)
+		}
+		if err != nil {
 			return err
 		}
 	} else {
